@@ -19,6 +19,12 @@ class BlockList:
         self.update_neighbours(block)
 
     def grade_blocks(self) -> None:
+        # gradings are derived data: a repeated run (every mesh.write() grades) starts from scratch,
+        # otherwise wires that were copied from neighbours see a different set of defined
+        # neighbours than in the first run
+        for block in self.blocks:
+            block.reset_gradings()
+
         for block in self.blocks:
             block.grade()
 
